@@ -148,3 +148,68 @@ def is_dir_ident(ck: Checker, m: TransferModel, e: ast.expr) -> bool:
 
 def iteration_starts(m: TransferModel) -> List[int]:
     return [d for lab, d in m.head.succ if lab == "T"]
+
+
+
+def check_rest_attempted(ck: Checker, m: "TransferModel", rule: str) -> None:
+    """The files that belong to no directory are handed to the adding helper on every way out of the
+    move routine that returns normally: a failure under some directory must not cancel unrelated files."""
+    g, move = m.g, m.move
+    ck.floor(rule, len(m.trailing_add), 1, "add of the loose (non-directory) files after the directory loop")
+    tids = {x.id for x, _c in m.trailing_add}
+    starts = [d for lab, d in m.head.succ if lab == "F"]
+    reached = g.reach(starts, skip_node=lambda n: n.id in tids, skip_edge=lambda a, lab, b: lab == "exc", include_start=True)
+    bad = g.exit in reached and not all(s_ in tids for s_ in starts)
+    ck.require(not bad, rule, move, m.trailing_add[0][0] if m.trailing_add else move.node,
+               "after the directory loop the loose files are always attempted before the routine returns",
+               "the routine can return after the directory loop without attempting the loose files (e.g. fail-fast on a directory failure): they are neither transferred nor reported as failed",
+               witness=g.fmt_path(g.path_to(reached, g.exit)) if bad else None, construct="loose files / always attempted")
+
+
+_ONESHOT_CALLS = {"iter", "map", "filter", "zip", "reversed", "enumerate"}
+
+
+def check_oneshot(ck: Checker, rule: str, fns) -> int:
+    """A generator expression / iterator bound to a local must not be consumed inside a loop that does
+    not also (re)create it, nor consumed twice in a row: the second consumer silently sees nothing."""
+    from ..an import reaching_defs
+
+    n_checked = 0
+    for fn in fns:
+        g = ck.cfg(fn)
+        for d in g.nodes.values():
+            a = d.ast
+            if not (d.kind == "stmt" and isinstance(a, (ast.Assign, ast.AnnAssign))):
+                continue
+            tg = a.targets[0] if isinstance(a, ast.Assign) else a.target
+            v = a.value
+            if not isinstance(tg, ast.Name) or v is None:
+                continue
+            lazy = isinstance(v, ast.GeneratorExp) or (isinstance(v, ast.Call) and isinstance(v.func, ast.Name) and v.func.id in _ONESHOT_CALLS)
+            if not lazy:
+                continue
+            n_checked += 1
+            uses = []
+            for x in g.nodes.values():
+                if x.id == d.id:
+                    continue
+                from ..cfg import node_exprs
+
+                for e in node_exprs(x):
+                    for nm in walk_expr(e):
+                        if isinstance(nm, ast.Name) and nm.id == tg.id and isinstance(nm.ctx, ast.Load) and d in reaching_defs(g, x.id, tg.id):
+                            uses.append(x)
+            bad_loop = [x for x in uses if any(lp not in d.loops for lp in x.loops)]
+            ck.require(not bad_loop, rule, fn, bad_loop[0] if bad_loop else d,
+                       f"one-shot iterator `{tg.id}` is not consumed inside a loop",
+                       f"`{tg.id}` is a one-shot iterator ({norm(v)[:50]}) but is consumed inside a loop: from the second iteration on it is empty, so the test it feeds can no longer fire",
+                       construct=f"{tg.id} = {norm(v)[:40]} / consumed in loop")
+            twice = False
+            for x in uses:
+                r = g.reach([x.id], skip_node=lambda y, d=d: y.id == d.id)
+                if any(y.id in r and y.id != x.id for y in uses):
+                    twice = True
+            if not bad_loop:
+                ck.require(not twice, rule, fn, d, f"one-shot iterator `{tg.id}` is consumed once",
+                           f"`{tg.id}` is a one-shot iterator ({norm(v)[:50]}) but is consumed more than once along a path", construct=f"{tg.id} = {norm(v)[:40]} / consumed twice")
+    return n_checked
